@@ -34,6 +34,7 @@ func frameAtATimeHolds(p *core.Program) (ok bool, site ssa.Instruction, why stri
 		return false, nil, "no Decrypt call in DecryptedRead"
 	}
 	isReadAhead := func(v ssa.Value) bool { _, ok := core.FieldLoad(v, tConn, "bufferedReader"); return ok }
+	var frameCounts []ssa.Value
 	for _, s := range sites {
 		arg := core.Args(s)[0]
 		// reader over peeked bytes
@@ -102,6 +103,37 @@ func frameAtATimeHolds(p *core.Program) (ok bool, site ssa.Instruction, why stri
 		if !discarded {
 			return false, s, "the frame handed to Decrypt is not discarded from the read-ahead buffer afterwards (it would be decrypted again)"
 		}
+		frameCounts = append(frameCounts, n)
+	}
+	// nothing else leaves the read-ahead buffer: every byte consumed from it was part of a frame handed to Decrypt (and so was
+	// authenticated and counted)
+	var stray ssa.Instruction
+	core.Instrs(dr, func(i ssa.Instruction) {
+		g := core.Callee(i)
+		if g == nil || g.Pkg == nil || g.Pkg.Pkg.Path() != "bufio" || !core.TypeIs(recvType(g), "bufio.Reader") {
+			return
+		}
+		switch cn(g) {
+		case "Peek", "Buffered", "Size":
+			return
+		}
+		cc := core.CallOf(i)
+		if len(cc.Args) == 0 || !isReadAhead(cc.Args[0]) {
+			return
+		}
+		if cn(g) == "Discard" {
+			for k, s := range sites {
+				if k < len(frameCounts) && sameValue(core.Args(i)[0], frameCounts[k]) && instrDominates(s, i) {
+					return
+				}
+			}
+		}
+		if stray == nil {
+			stray = i
+		}
+	})
+	if stray != nil {
+		return false, stray, "bytes leave the read-ahead buffer that were not handed to Decrypt: they are dropped from the stream without being authenticated or counted (an on-path adversary can insert them at will)"
 	}
 	return true, sites[0], ""
 }
@@ -131,14 +163,21 @@ func plaintextReadNoReadAhead(c *core.Ctx) {
 	n := 0
 	core.Instrs(f, func(i ssa.Instruction) {
 		cc := core.CallOf(i)
-		if cc == nil || !cc.IsInvoke() || cc.Method.Name() != "Read" || !fromRawSocket(cc.Value) {
+		if cc == nil {
+			return
+		}
+		var buf ssa.Value
+		switch {
+		case cc.IsInvoke() && cc.Method.Name() == "Read" && fromRawSocket(cc.Value):
+			buf = cc.Args[0]
+		case core.IsCall(i, "(*bufio.Reader).Read") && isReadAheadField(cc.Args[0]):
+			// the byte comes out of the connection's read-ahead buffer: what is behind it stays there, and DecryptedRead takes it from there
+			buf = cc.Args[1]
+		default:
 			return
 		}
 		n++
 		one, other := false, false
-		for _, s := range core.Sources(cc.Args[0]) {
-			_ = s
-		}
 		var walk func(v ssa.Value, d int)
 		walk = func(v ssa.Value, d int) {
 			if d == 0 {
@@ -162,7 +201,7 @@ func plaintextReadNoReadAhead(c *core.Ctx) {
 				other = true
 			}
 		}
-		walk(cc.Args[0], 4)
+		walk(buf, 4)
 		// the unsliced buffer reaches the read only where len(b) <= 1
 		small := func(cond ssa.Value) (bool, bool) {
 			bo, ok := cond.(*ssa.BinOp)
@@ -195,5 +234,132 @@ func plaintextReadNoReadAhead(c *core.Ctx) {
 	})
 	if n == 0 {
 		c.Undecided("plaintext-read@"+fname(f), f.Pos(), "no plain-text read of the socket in Connection.Read")
+	}
+}
+
+func isReadAheadField(v ssa.Value) bool {
+	_, ok := core.FieldLoad(v, tConn, "bufferedReader")
+	return ok
+}
+
+// modeDecidedAfterData (C07-R6): Connection.Read asks the session for the decrypter — the call which also activates a cryptographer
+// installed by pair-verify — only once the bytes it is about to read have arrived, and nothing was consumed while it waited.
+//
+// net/http keeps a one-byte read pending on the connection from the moment a request body was consumed. With the mode chosen
+// before blocking, the read that is pending while the pair-verify finish request is handled waits in the plain-text branch: the
+// first byte of the first encrypted frame is handed to the HTTP parser as it is, the frame that follows starts one byte late, and
+// the first request of the verified controller is never answered (demonstrated: 10 of 580 connections against the library's own
+// server on loopback; deterministic with a scheduling delay). The accepted form waits with a Peek on the connection's read-ahead
+// buffer (nothing consumed, a time-out leaves everything in place), then decides, and the plain-text branch takes its byte from
+// that same buffer.
+func modeDecidedAfterData(c *core.Ctx) {
+	f := c.P.Func("hap", "(*Connection).Read")
+	if f == nil || len(f.Params) < 2 {
+		c.Undecided("Connection.Read", token.NoPos, "not found")
+		return
+	}
+	isDecider := func(i ssa.Instruction) bool {
+		if g := core.Callee(i); g != nil && cn(g) == "getDecrypter" && core.TypeIs(recvType(g), tConn) {
+			return true
+		}
+		return core.IsInvoke(i, mod+"/hap.Session", "Decrypter")
+	}
+	sites := core.FindCalls(f, isDecider)
+	if len(sites) == 0 {
+		c.Undecided("mode-decided-after-data@"+fname(f), f.Pos(), "Connection.Read does not ask for the decrypter")
+		return
+	}
+	peekOK := errNilFact(1, func(i ssa.Instruction) bool {
+		if !core.IsCall(i, "(*bufio.Reader).Peek") || !isReadAheadField(core.CallOf(i).Args[0]) {
+			return false
+		}
+		k, isK := core.ConstInt(core.CallOf(i).Args[1])
+		return isK && k >= 1
+	})
+	pending := core.NonNilFact(func(v ssa.Value) bool { _, ok := core.FieldLoad(v, tConn, "readBuffer"); return ok })
+	// len(b) == 0: nothing will be read
+	isLenB := func(v ssa.Value) bool {
+		call, ok := v.(*ssa.Call)
+		if !ok {
+			return false
+		}
+		bi, ok := call.Call.Value.(*ssa.Builtin)
+		return ok && bi.Name() == "len" && valIs(call.Call.Args[0], f.Params[1])
+	}
+	empty := func(cond ssa.Value) (bool, bool) {
+		bo, ok := cond.(*ssa.BinOp)
+		if !ok || !isLenB(bo.X) {
+			return false, false
+		}
+		k, isK := core.ConstInt(bo.Y)
+		if !isK {
+			return false, false
+		}
+		switch {
+		case bo.Op == token.EQL && k == 0, bo.Op == token.LSS && k == 1, bo.Op == token.LEQ && k == 0:
+			return true, false
+		case bo.Op == token.NEQ && k == 0, bo.Op == token.GTR && k == 0, bo.Op == token.GEQ && k == 1:
+			return false, true
+		}
+		return false, false
+	}
+	isDeciderResult := func(v ssa.Value) bool {
+		for _, src := range core.Sources(v) {
+			if call, ok := src.(*ssa.Call); !ok || !isDecider(call) {
+				return false
+			}
+		}
+		return true
+	}
+	// an earlier answer "encrypted" stands: a cryptographer is never taken away again (C01-R3), so no plain-text read follows it
+	fact := core.AnyFact(peekOK, pending, empty, core.NonNilFact(isDeciderResult))
+	plain := core.FindCalls(f, func(i ssa.Instruction) bool {
+		cc := core.CallOf(i)
+		if cc == nil {
+			return false
+		}
+		if cc.IsInvoke() && cc.Method.Name() == "Read" && fromRawSocket(cc.Value) {
+			return true
+		}
+		return core.IsCall(i, "(*bufio.Reader).Read") && isReadAheadField(cc.Args[0])
+	})
+	if len(plain) == 0 {
+		c.Undecided("mode-decided-after-data@"+fname(f), f.Pos(), "no plain-text read in Connection.Read")
+		return
+	}
+	for _, r := range plain {
+		ok := false
+		for _, d := range sites {
+			dv, _ := d.(ssa.Value)
+			if dv == nil {
+				continue
+			}
+			saidPlain := core.IsNilFact(func(v ssa.Value) bool {
+				srcs := core.Sources(v)
+				return len(srcs) == 1 && srcs[0] == dv
+			})
+			if core.Dominated(r, saidPlain) && core.Dominated(d, fact) {
+				ok = true
+			}
+		}
+		c.Check(ok, "mode-decided-after-data@"+fname(f), posOf(r),
+			"a plain-text read follows an answer 'no decrypter' that was obtained after a Peek on the read-ahead buffer had shown that the data is there",
+			"Connection.Read chooses plain text before the data has arrived: a read that is pending while pair-verify completes (net/http keeps one pending between requests) consumes the first byte of the first encrypted frame as plain text — the stream is out of step for good and the first request of the verified controller is never answered")
+	}
+	// what was waited on is what is read: a raw socket read would overtake the bytes the Peek has buffered
+	peeks := core.FindCalls(f, func(i ssa.Instruction) bool {
+		return core.IsCall(i, "(*bufio.Reader).Peek") && isReadAheadField(core.CallOf(i).Args[0])
+	})
+	if len(peeks) > 0 {
+		raw := core.FindCalls(f, func(i ssa.Instruction) bool {
+			cc := core.CallOf(i)
+			return cc != nil && cc.IsInvoke() && cc.Method.Name() == "Read" && fromRawSocket(cc.Value)
+		})
+		pos := f.Pos()
+		if len(raw) > 0 {
+			pos = posOf(raw[0])
+		}
+		c.Check(len(raw) == 0, "plain-read-from-waited-buffer@"+fname(f), pos, "plain text is taken from the read-ahead buffer the read waited on",
+			"Connection.Read waits on the read-ahead buffer but reads plain text from the socket: the bytes the wait has buffered are overtaken (delivered late or, after the switch, decrypted out of order)")
 	}
 }
